@@ -74,3 +74,54 @@ Example C11_bc_inv_satisfiable :
   bc_inv 4 (mkState [[[1; 1; 0; 0]; [1; 0; 0; 0]]]%nat [[[0; 0; 0; 0]; [0; 0; 0; 0]]]%nat).
 Proof. unfold bc_inv, n_loci; simpl. repeat split; auto. Qed.
 Print Assumptions C11_bc_inv_satisfiable.
+
+(* ------------------------------------------------------------------------------------------------
+   "Hence for means and covariances": the second-moment functional is bilinear in the two reward
+   matrices, with the real matrix exponential (proofs/ExpLaws2.v).  [m2 rexpm a S R1 R2 t] is the
+   ordered second-order Van Loan functional
+        a * (top-right block of mexp (t * [[S, R1, 0], [0, S, R2], [0, 0, S]])) * 1
+   (the code symmetrises it over the two orders and multiplies by 2!).  The state-by-state identities
+   above say that a reward vector is a finite sum of others (e.g. total branch length = sum over i of
+   the i-th SFS bin); C11_second_moment_bilinear_real turns such identities, in both arguments at
+   once, into the identity between second (cross) moments: the second moment of the total branch
+   length is the sum over all pairs (i, j) of the SFS cross moments - any finite index types I, J,
+   every dimension n, every generator S, every time t.  The other four are the binary and scalar
+   cases, in each argument. *)
+From mathcomp Require Import all_ssreflect all_algebra.
+From PG Require Import proofs.ExpLaws analysis.Rstruct analysis.RSums analysis.MExp analysis.MExpLaws
+                       proofs.ExpLaws2.
+Import GRing.Theory.
+Local Open Scope ring_scope.
+
+Theorem C11_second_moment_bilinear_real :
+  forall n (a : 'rV[R]_n) (S : 'M[R]_n) (t : R) (I J : finType) (Ra : I -> 'M[R]_n) (Rb : J -> 'M[R]_n),
+    m2 (fun n : nat => @mexp n) a S (\sum_i Ra i) (\sum_j Rb j) t
+    = \sum_i \sum_j m2 (fun n : nat => @mexp n) a S (Ra i) (Rb j) t.
+Proof. exact: real_m2_bilinear. Qed.
+Print Assumptions C11_second_moment_bilinear_real.
+
+Theorem C11_second_moment_additive_l_real :
+  forall n (a : 'rV[R]_n) (S R1 R1' R2 : 'M[R]_n) (t : R),
+    m2 (fun n : nat => @mexp n) a S (R1 + R1') R2 t
+    = m2 (fun n : nat => @mexp n) a S R1 R2 t + m2 (fun n : nat => @mexp n) a S R1' R2 t.
+Proof. exact: real_m2_additive_l. Qed.
+Print Assumptions C11_second_moment_additive_l_real.
+
+Theorem C11_second_moment_additive_r_real :
+  forall n (a : 'rV[R]_n) (S R1 R2 R2' : 'M[R]_n) (t : R),
+    m2 (fun n : nat => @mexp n) a S R1 (R2 + R2') t
+    = m2 (fun n : nat => @mexp n) a S R1 R2 t + m2 (fun n : nat => @mexp n) a S R1 R2' t.
+Proof. exact: real_m2_additive_r. Qed.
+Print Assumptions C11_second_moment_additive_r_real.
+
+Theorem C11_second_moment_scale_l_real :
+  forall n (a : 'rV[R]_n) (S R1 R2 : 'M[R]_n) (c t : R),
+    m2 (fun n : nat => @mexp n) a S (c *: R1) R2 t = c *: m2 (fun n : nat => @mexp n) a S R1 R2 t.
+Proof. exact: real_m2_scale_l. Qed.
+Print Assumptions C11_second_moment_scale_l_real.
+
+Theorem C11_second_moment_scale_r_real :
+  forall n (a : 'rV[R]_n) (S R1 R2 : 'M[R]_n) (c t : R),
+    m2 (fun n : nat => @mexp n) a S R1 (c *: R2) t = c *: m2 (fun n : nat => @mexp n) a S R1 R2 t.
+Proof. exact: real_m2_scale_r. Qed.
+Print Assumptions C11_second_moment_scale_r_real.
